@@ -113,6 +113,29 @@ type IssuedCheck struct {
 	ChainOK  bool
 	Nonce    []byte
 	LockBad  bool
+	GenesisUsed bool // listed under used_checks of the genesis: was redeemed on the chain this one continues
+}
+
+// PreCheck describes a check that the genesis lists as already used (scenario field, replayable).
+type PreCheck struct {
+	Issuer int    `json:"issuer"`
+	Pass   int    `json:"pass"`
+	Coin   uint64 `json:"coin"`
+	Value  string `json:"value"`
+	Due    uint64 `json:"due"`
+	Nonce  string `json:"nonce"`
+}
+
+// Build returns the issued check and its hash as the genesis lists it.
+func (pc PreCheck) Build(chain types.ChainID) (*IssuedCheck, string) {
+	val := bi(pc.Value)
+	raw := MakeCheck(chain, pc.Issuer, pc.Pass, []byte(pc.Nonce), pc.Due, types.CoinID(pc.Coin), 0, val, false)
+	var c check.Check
+	if err := rlp.DecodeBytes(raw, &c); err != nil {
+		panic(err)
+	}
+	h := c.Hash()
+	return &IssuedCheck{Raw: raw, Issuer: pc.Issuer, Pass: pc.Pass, Coin: pc.Coin, GasCoin: 0, Value: val, DueBlock: pc.Due, ChainOK: true, Nonce: []byte(pc.Nonce), GenesisUsed: true}, fmt.Sprintf("%x", h[:])
 }
 
 func (v *View) idxOf(a types.Address) (int, bool) {
